@@ -280,7 +280,7 @@ func boundaryDirectories() []*directory {
 		partition("DC=ForestDnsZones,DC=corp,DC=example"),
 	}}
 	d0.fill(nil, func(int) []uint32 {
-		return []uint32{500, 501, 502, 512, 513, 1104, 1105, 544, 560, 572, 65535, 65536, 66080, 131617, 65536 + 583, 1<<31 + 544, 0xFFFF0220}
+		return []uint32{500, 501, 502, 512, 513, 1104, 1105, 544, 560, 572, 65535, 65536, 66080, 131617, 65536 + 583, 1<<31 + 544, 0xFFFF0220, 563, 564, 565, 566, 567, 570}
 	}, func(int) []uint32 { return builtinRange() }, []uint32{4242, 7})
 	out = append(out, d0)
 	// sub-authority counts 0, 1, 14, 15; authorities 0, 2^32, 2^48-1; powers of ten
@@ -625,7 +625,7 @@ func (sr *sessionRun) findByRID(name string, rid int) {
 		switch {
 		case !understood:
 			r.Count("session_rid_lookup_filter_not_judged", 1)
-		case "(objectSid="+asked+")" != domainForm && !(rid >= 544 && rid <= 583 && "(objectSid="+asked+")" == builtinForm):
+		case "(objectSid="+asked+")" != domainForm && !(rid >= 544 && rid <= 583 && !unassignedAlias[rid] && "(objectSid="+asked+")" == builtinForm):
 			r.Violation("ldap.Session.FindObjectSIDByRID:filter", fmt.Sprintf("FindObjectSIDByRID(%q, %d) searched for %s, the object with that RID in that domain is %s", name, rid, q.filter, domainForm), cs)
 			return
 		}
@@ -668,6 +668,10 @@ func (sr *sessionRun) findByRID(name string, rid int) {
 		}
 	}
 }
+
+// unassignedAlias: RIDs inside 544..583 that MS-DTYP 2.4.2.4 / the well-known SID list assign to
+// no BUILTIN alias; in a domain they can only be ordinary domain-relative RIDs.
+var unassignedAlias = map[int]bool{563: true, 564: true, 565: true, 566: true, 567: true, 570: true}
 
 // sidOfFilter reads the SID an (objectSid=...) equality filter asks for: the string form, or
 // the binary form with every octet escaped (RFC 4515). Anything else is not understood.
